@@ -117,7 +117,7 @@ def c14(prop, tier, replay):
 
 def c15(prop, tier, replay):
     n = 6 if tier == "quick" else 8
-    cfgs = [("cmt", 5 if tier == "quick" else 7), ("xml", n), ("pas", n), ("dash", n)]
+    cfgs = [("cmt", 5 if tier == "quick" else 7), ("cmt0", 5 if tier == "quick" else 7), ("xml", n), ("pas", n), ("dash", n)]
     return scan_check(prop, tier, replay, cfgs, "tok",
                       BASE + "; C15: block comments /* */, <!-- -->, (* *), --- -- (self-overlapping end delimiters) and line comments // and --; "
                       "the expected comment token ends at the FIRST occurrence of the end delimiter behind the start delimiter (string search, "
